@@ -3,7 +3,7 @@ CONSTANTS
   Pre <- NoPre
   FailingGov = FALSE
   MaxHeight = 3
-  MaxTx = 4
+  MaxTx = 3
   MaxFail = 1
   MaxStreams = 1
   Fees <- FeesQuick
